@@ -4,6 +4,7 @@ import (
 	"bytes"
 	"fmt"
 	"strings"
+	"time"
 
 	"verifsim/ref"
 )
@@ -204,6 +205,18 @@ func c04Base(k int) (*Plan, *genCtx, []SentFrame) {
 	return p, g, frames
 }
 
+// c04Long: a frame of more than 1023 bytes on the wire (a 1015-byte body), then two short ones.
+func c04Long() (*Plan, *genCtx, []SentFrame) {
+	p, g := newPlan("C04", 0xC04FFE, "enum")
+	ci := g.addConn("service", true, g.phone(true))
+	frames := []SentFrame{
+		g.mkFrame(ci, 0x0900, 0x0101, g.body(1015, 0)),
+		g.mkFrame(ci, 0x0002, 0x0102, nil),
+		g.mkFrame(ci, 0x0200, 0x0103, g.wellFormedBody(0x0200, true, nil)),
+	}
+	return p, g, frames
+}
+
 // c04Batch: 69 heartbeats of the minimal frame size (15 bytes: 2013 header, empty body, nothing to escape).
 func c04Batch() (*Plan, *genCtx, []SentFrame) {
 	p, g := newPlan("C04", 0xC04FFF, "enum")
@@ -248,12 +261,18 @@ func enumC04(tier string) (int, func(i int) *Plan) {
 	for _, c := range []int{12, 13, 14} {
 		items = append(items, item{-1, c, 0})
 	}
+	// a frame longer than one read, cut after a full read's worth, with more than 5 s before the rest arrives
+	for _, c := range []int{1023, 1024, 1030} {
+		items = append(items, item{-2, c, 0})
+	}
 	return len(items), func(i int) *Plan {
 		it := items[i]
 		var p *Plan
 		var g *genCtx
 		var fr []SentFrame
-		if it.base < 0 {
+		if it.base == -2 {
+			p, g, fr = c04Long()
+		} else if it.base < 0 {
 			p, g, fr = c04Batch()
 		} else {
 			p, g, fr = c04Base(it.base)
@@ -284,6 +303,9 @@ func enumC04(tier string) (int, func(i int) *Plan) {
 				}
 			}
 			a.Ops = append(a.Ops, op, Op{K: "quiet"})
+			if it.base == -2 && prev == 0 {
+				a.Ops = append(a.Ops, Op{K: "sleep", D: int64(5500 * time.Millisecond)}, Op{K: "quiet"})
+			}
 			prev = c
 		}
 		p.Actors = []*Actor{a}
